@@ -83,6 +83,8 @@ EndConn(s, e, cn) ==
   \cup Cl(fc = 0 \/ s.started[i] <= fc, "P11_nothing_executed_after_a_closing_response")
   \cup Cl(fc = 0 \/ n <= fc, "P11_no_response_after_a_closing_response")
   \cup Cl(~(quiet /\ fc # 0 /\ F[fc].complete /\ s.cfg.infinite) \/ cn.closed, "P11_closing_response_is_followed_by_close")
+  \* ---- C09 (concurrent part): at rest, every application iterable that was started has been closed
+  \cup Cl(~quiet \/ s.ended[i] = s.started[i], "P09_every_started_iterable_is_closed")
   \* ---- C12
   \cup Cl(cn.maxpending <= s.cfg.hwm + cn.maxwrite, "P12_pending_output_bounded_by_watermark_plus_one_write")
   \cup Cl(~quiet \/ cn.waiting = 0, "P12_paused_producer_released")
